@@ -65,13 +65,28 @@ def run_memmem(rep, repo):
     memmem_scan_rule(rep, mod)
 
 
+def count_searches(interp, st, i, callee, args):
+    """ghost: number of igris_memmem calls on this path (saturating at 2)"""
+    if callee == 'igris_memmem' and interp.recording == 0:
+        st.ghost['nsearch'] = min(2, st.ghost.get('nsearch', 0) + 1)
+    return None
+
+
+def zero_searches(run, st, env, pnames, args, sps):
+    st.ghost['nsearch'] = 0
+
+
 def run_replsub(rep, repo):
     mod = compile_ir(repo + '/igris/string/replace_substrings.c', repo)
     rep.units.append('igris/string/replace_substrings.c')
     it = Interp(mod, externals=LIBC_EXT)
     run = Run19(it, [])
     lim = ['arg%d <= 1099511627776' % k for k in (1, 3, 5, 7)]
-    run.run('replace_substrings', FnSpec(setup=sized_params((0, 1), (2, 3), (4, 5), (6, 7)), pre=lim))
+    it.call_hook = count_searches
+    run.run('replace_substrings', FnSpec(setup=chain(sized_params((0, 1), (2, 3), (4, 5), (6, 7)), zero_searches),
+                                         pre=lim + ['arg1 >= 1'], post=[
+        dict(name='pattern-that-fits-is-searched-for', when=['arg5 >= 1', 'arg5 <= arg3'], then=['ghost_nsearch >= 1'])]))
+    it.call_hook = None
     rep.add_absint('R-REPLSUB', summarize(it, run))
     replace_cursor_rule(rep, mod, 'replace_substrings', 'replace_substrings', lambda f: ('a', 5))
 
@@ -749,7 +764,19 @@ def run_replacecpp(rep, repo):
     c = [f for f in mod.defined() if f.scope.startswith('igris::') and f.srcname == 'replace']
     if len(c) != 1:
         raise AnalysisBroken('igris::replace not found')
-    run.run(c[0].name, FnSpec())
+    def bind_sizes(run_, st, env, pnames, args, sps):
+        # input = parameter 1, sub = parameter 2 (parameter 0 is the returned string)
+        mi, ms = sm.model(st, args[1]), sm.model(st, args[2])
+        if mi is None or ms is None:
+            raise AnalysisBroken('igris::replace: string parameters are not plain references')
+        env.bind('inlen', mi[1])
+        env.bind('sublen', ms[1])
+        st.ghost['nsearch'] = 0
+    it.call_hook = count_searches
+    # a pattern that can occur (1 <= |sub| <= |input|) is actually searched for: no shortcut returns the input unchanged
+    run.run(c[0].name, FnSpec(setup=bind_sizes, post=[
+        dict(name='pattern-that-fits-is-searched-for', when=['sublen >= 1', 'sublen <= inlen'], then=['ghost_nsearch >= 1'])]))
+    it.call_hook = None
     rep.add_absint('R-REPLACE', nice(mod, summarize(it, run)))
 
     def sub_size(f):
